@@ -57,7 +57,7 @@ CHECKS["C10"] = dict(level="exploration", design="5/C10",
 CHECKS["C11"] = dict(level="exploration", design="5/C11",
    technique="bounded-exhaustive enumeration of control-flow templates compared with the reference interpreter, iteration-count ladders (0, 1, 2, 100, 70 000) with probe suffixes, and explicit-state cycle analysis of each program's real bytecode (no reachable cycle of the abstract stack machine may grow the stack)",
    text="1.28 million programs in the quick tier: all statement trees over blocks, if/else, counter loops (0, 1, 3 iterations), immediately applied function bodies with numbered trace points, stop, volgende, antwoord, declarations and empty blocks in every position (top level and inside a function), every early exit in every expression context, and every loop-body template iterated 0..70 000 times before a probe; trace, value and error must equal the reference interpreter's, and the abstract stack machine of each program (44 million states) must have no stack-growing cycle.",
-   note="trusted: refint control-flow rules; bcmc stack-effect table; known finding KF-C11-01 (early exit with pending operands) is matched by a structural predicate on the program, any other growing cycle is a violation")
+   note="trusted: refint control-flow rules; bcmc stack-effect table; the formerly recorded finding KF-C11-01 (early exit with pending operands) is repaired (fix 1e5ef19): any growing cycle is a violation")
 
 CHECKS["C12"] = dict(level="exploration", design="5/C12",
    technique="bounded-exhaustive enumeration of call expressions in every expression context over a prelude of functions (marker function makes evaluation order observable), generated parameter/local/pending-operand shapes, nested-function families and directed recursion ladders, compared with the reference interpreter / closed forms",
